@@ -12,6 +12,13 @@ engine `onchain` + spec OnChain.tla.
                    anchor-channel holder closes whose claims (anchor bump of the commitment, zero-fee
                    HTLC transactions) are starved for several bump intervals while the fee
                    estimators collapse (by more than 5x) and spike between the bumps
+    shapes         the cheater's second-stage transactions in every shape SIGHASH_SINGLE|ANYONECANPAY allows (model:
+                   Layout in OnChainMC.tla; engine: op `cheat`, hand-assembled from the old-state monitor's
+                   HTLCDescriptors, signed by the real second node), profile c06s
+    histories      reorganisations that unconfirm the commitment / second-stage transactions / claims and let them
+                   confirm again (model: MUnwind, MBlockBack; engine: op `unwind`), profiles c06r, c07u
+    spec mutants   an ideal monitor with a planted defect (ignores second-stage transactions whose input and output
+                   counts differ; never claims an output twice) must be refuted by TLC
     oracle         TLC validates every recorded run against OnChainTrace.tla
 """
 import json, os, random, time, copy
@@ -897,9 +904,7 @@ COMMON_ASSUMPTIONS = [
     "(no minimum relay fee, no RBF rules, no package limits): any valid final transaction can be mined when the script says so",
     "fee estimator and wallet are the test doubles of functional_test_utils (constant feerate changed by the script; "
     "four 1 BTC wallet UTXOs per node for anchor bumping)",
-    "reorganisations only of the newest blocks above every confirmed transaction of the run and not below an HTLC expiry already "
-    "reached (nothing confirmed is ever unconfirmed; C11 covers the rest); channel value 1,000,000 sat; to_self_delay 144; "
-    "histories of at most 6 updates",
+    "channel value 1,000,000 sat; to_self_delay 144; histories of at most 6 updates",
     "BumpTransactionEvents are handled at once by the wallet-backed BumpTransactionEventHandler of functional_test_utils; the "
     "monotonicity of externally funded claims is judged on the feerate the monitor requests (per claim id), that of the "
     "monitor's own transactions on the package feerate of the replacements",
